@@ -243,6 +243,39 @@ def iter_next(it, itv, back=False):
             return none()
         itv.b -= 1
         return iter_next(it, itv.a, False)
+    if k == 'take_while':
+        if itv.c:
+            return none()
+        x = iter_next(it, itv.a, back)
+        if x.variant == 'None':
+            return x
+        if it.decide(it.call_closure_ref(itv.b, [Ref(Cell(x.f[0]))])):
+            return x
+        itv.c = True
+        return none()
+    if k == 'skip_while':
+        while True:
+            x = iter_next(it, itv.a, back)
+            if x.variant == 'None':
+                return x
+            if itv.c:
+                return x
+            if not it.decide(it.call_closure_ref(itv.b, [Ref(Cell(x.f[0]))])):
+                itv.c = True
+                return x
+    if k == 'step_by':
+        x = iter_next(it, itv.a, back)
+        if x.variant == 'None':
+            return x
+        for _ in range(itv.b - 1):
+            if iter_next(it, itv.a, back).variant == 'None':
+                break
+        return x
+    if k == 'inspect':
+        x = iter_next(it, itv.a, back)
+        if x.variant != 'None':
+            it.call_closure_ref(itv.b, [Ref(Cell(x.f[0]))])
+        return x
     if k == 'peekable':
         if itv.b is not None:
             x = itv.b
@@ -503,10 +536,15 @@ def m_into(it, name, a):
     v = a[0]
     if isinstance(v, str) or isinstance(v, (int, bool)) or z3.is_expr(v):
         m = re.fullmatch(r'<(\w+) as From<(\w+)>>::from', n)
-        if m and m.group(1) != m.group(2) and not isinstance(v, str):
+        dst, src = (m.group(1), m.group(2)) if m else (None, None)
+        if not m:
+            m = re.fullmatch(r'<(\w+) as Into<(\w+)>>::into', n)
+            if m:
+                src, dst = m.group(1), m.group(2)
+        if m and dst != src and not isinstance(v, str):
             from .interp import INT_BITS
-            if m.group(1) in INT_BITS and m.group(2) in INT_BITS:
-                return it.cast(v, m.group(2), m.group(1), 'IntToInt')
+            if dst in INT_BITS and src in INT_BITS:
+                return it.cast(v, src, dst, 'IntToInt')
         return v
     if isinstance(v, Ref) and isinstance(it.deref(v), str):
         return it.deref(v)
@@ -980,6 +1018,48 @@ def m_iter_skip(it, name, a):
 @model(r'<.* as Iterator>::take')
 def m_iter_take(it, name, a):
     return IterV('take', iter_of(it, a[0]), a[1])
+
+
+@model(r'<.* as Iterator>::take_while(::<.*>)?')
+def m_iter_take_while(it, name, a):
+    return IterV('take_while', iter_of(it, a[0]), as_callable_ref(it, a[1]), False)
+
+
+@model(r'<.* as Iterator>::skip_while(::<.*>)?')
+def m_iter_skip_while(it, name, a):
+    return IterV('skip_while', iter_of(it, a[0]), as_callable_ref(it, a[1]), False)
+
+
+@model(r'<.* as Iterator>::step_by')
+def m_iter_step_by(it, name, a):
+    if a[1] == 0:
+        raise Panic('step_by(0)')
+    return IterV('step_by', iter_of(it, a[0]), a[1])
+
+
+@model(r'<.* as Iterator>::inspect(::<.*>)?')
+def m_iter_inspect(it, name, a):
+    return IterV('inspect', iter_of(it, a[0]), as_callable_ref(it, a[1]))
+
+
+@model(r'<.* as (Iterator|DoubleEndedIterator)>::rposition(::<.*>)?')
+def m_iter_rposition(it, name, a):
+    xs = drain_iter(it, iter_of(it, a[0]))
+    clo = as_callable_ref(it, a[1])
+    for i in range(len(xs) - 1, -1, -1):
+        if it.decide(it.call_closure_ref(clo, [xs[i]])):
+            return some(i)
+    return none()
+
+
+@model(r'<.* as (Iterator|DoubleEndedIterator)>::rfind(::<.*>)?')
+def m_iter_rfind(it, name, a):
+    xs = drain_iter(it, iter_of(it, a[0]))
+    clo = as_callable_ref(it, a[1])
+    for i in range(len(xs) - 1, -1, -1):
+        if it.decide(it.call_closure_ref(clo, [Ref(Cell(xs[i]))])):
+            return some(xs[i])
+    return none()
 
 
 @model(r'<.* as Iterator>::peekable')
